@@ -867,4 +867,75 @@ theorem uvIp6Addr_zone (a z : List Nat) (h : 37 ∉ a) :
     | some v => have := pton6_len a v hp; omega
   · rw [if_neg hl, uvInetPton6_nopct a h]
 
+/-! ### the by-hand memmove of inet_pton6 -/
+
+theorem set_at (A B : List Nat) (x y : Nat) (k : Nat) (hk : k = A.length) : (A ++ x :: B).set k y = A ++ y :: B := by
+  subst hk
+  induction A with
+  | nil => simp
+  | cons a A ih => simp [ih]
+
+theorem getD_at (A B : List Nat) (x : Nat) (k : Nat) (hk : k = A.length) : (A ++ x :: B).getD k 0 = x := by
+  subst hk
+  induction A with
+  | nil => simp
+  | cons a A ih => simp
+
+theorem shiftLoop_take (lb rb : List Nat) (hlen : lb.length + rb.length < 16) :
+    ∀ m, m ≤ rb.length →
+    shiftLoop lb.length rb.length m (rb.length - m + 1)
+      (lb ++ rb.take m ++ List.replicate (16 - (lb.length + rb.length)) 0 ++ rb.drop m) =
+    lb ++ List.replicate (16 - (lb.length + rb.length)) 0 ++ rb := by
+  intro m
+  induction m with
+  | zero => intro _; simp [shiftLoop]
+  | succ m ih =>
+    intro hm
+    have hx : m < rb.length := by omega
+    obtain ⟨z, hz⟩ : ∃ z, 16 - (lb.length + rb.length) = z + 1 := ⟨16 - (lb.length + rb.length) - 1, by omega⟩
+    have htake : rb.take (m + 1) = rb.take m ++ [rb[m]] := by
+      rw [List.take_succ_eq_append_getElem hx]
+    have hdrop : rb.drop m = rb[m] :: rb.drop (m + 1) := by
+      rw [List.drop_eq_getElem_cons hx]
+    have hZ1 : List.replicate (z + 1) 0 = List.replicate z 0 ++ [0] := by
+      rw [List.replicate_succ']
+    have hZ2 : List.replicate (z + 1) 0 = 0 :: List.replicate z 0 := by
+      rw [List.replicate_succ]
+    rw [shiftLoop]
+    have e1 : lb ++ rb.take (m + 1) ++ List.replicate (16 - (lb.length + rb.length)) 0 ++ rb.drop (m + 1)
+        = (lb ++ rb.take m) ++ rb[m] :: (List.replicate z 0 ++ 0 :: rb.drop (m + 1)) := by
+      rw [hz, htake, hZ1]; simp only [List.append_assoc, List.cons_append, List.nil_append]
+    have e1' : (lb ++ rb.take m) ++ rb[m] :: (List.replicate z 0 ++ 0 :: rb.drop (m + 1))
+        = (lb ++ rb.take m ++ rb[m] :: List.replicate z 0) ++ 0 :: rb.drop (m + 1) := by simp
+    have i1 : lb.length + rb.length - (rb.length - (m + 1) + 1) = (lb ++ rb.take m).length := by
+      simp [List.length_take]; omega
+    have i2 : 16 - (rb.length - (m + 1) + 1) = (lb ++ rb.take m ++ rb[m] :: List.replicate z 0).length := by
+      simp [List.length_take]; omega
+    rw [e1, getD_at _ _ _ _ i1, e1', set_at _ _ _ _ _ i2]
+    have e2 : lb ++ rb.take m ++ rb[m] :: List.replicate z 0 ++ rb[m] :: rb.drop (m + 1)
+        = (lb ++ rb.take m) ++ rb[m] :: (List.replicate z 0 ++ rb[m] :: rb.drop (m + 1)) := by simp only [List.append_assoc, List.cons_append]
+    rw [e2, set_at _ _ _ _ _ i1]
+    have := ih (by omega)
+    rw [hz, hZ2, hdrop] at this
+    have e3 : rb.length - (m + 1) + 1 + 1 = rb.length - m + 1 := by omega
+    rw [e3]
+    rw [hz, hZ2]
+    simpa using this
+
+/-- the shift loop moves the bytes written after "::" to the end and zero-fills the gap -/
+theorem shiftLoop_eq (lb rb : List Nat) (hlen : lb.length + rb.length < 16) :
+    shiftLoop lb.length rb.length rb.length 1 (lb ++ rb ++ List.replicate (16 - (lb.length + rb.length)) 0) =
+    lb ++ List.replicate (16 - (lb.length + rb.length)) 0 ++ rb := by
+  have := shiftLoop_take lb rb hlen rb.length (Nat.le_refl _)
+  simpa using this
+
+theorem ipv6TextS_iff (s v : List Nat) : Ipv6TextS s v → Ipv6Text s v := by
+  rintro (⟨hg, hl⟩ | ⟨l, lb, r, rb, hl, hr, hlen, rfl, rfl⟩)
+  · exact Ipv6Text.full hg hl
+  · rw [shiftLoop_eq lb rb hlen]
+    exact Ipv6Text.compressed hl hr hlen
+
+theorem pton6_sound (s v : List Nat) (h : pton6 s = some v) : Ipv6Text s v :=
+  ipv6TextS_iff s v (pton6_soundS s v h)
+
 end UvModel.Inet
